@@ -361,3 +361,101 @@ func TestC07_Sharing(t *testing.T) {
 		c07Case(t, ev, gi, maxN)
 	})
 }
+
+// TestC07_SparseIndices: the t shares need not be the first t of a small group.  Share indices are
+// drawn from a large index space (n up to 4096; contiguous high blocks, random, extremes), t up to
+// 24: Lagrange coefficients are products of up to 23 factors of size ~n, far beyond 64 bits.
+func TestC07_SparseIndices(t *testing.T) {
+	ev := evFor("C07")
+	groups := c07Groups()
+	rcheck(t, 300, 12000, func(t *rapid.T) {
+		gi := groups[uniformInt(t, 0, len(groups)-1, "group")]
+		g, q := gi.G, gi.Order
+		n := rapid.SampledFrom([]int{24, 32, 64, 300, 4096}).Draw(t, "n")
+		th := rapid.IntRange(1, 24).Draw(t, "t")
+		extra := min(rapid.IntRange(0, 3).Draw(t, "extra"), n-th)
+		kc := make([]kyber.Scalar, th)
+		coeffs := make([]*big.Int, th)
+		for i := range kc {
+			coeffs[i], _ = genBig(t, q, fmt.Sprintf("c%d", i))
+			kc[i] = scalarFromBig(g, coeffs[i])
+		}
+		pri := share.CoefficientsToPriPoly(g, kc)
+		pub := pri.Commit(nil)
+		shape := rapid.SampledFrom([]string{"high-block", "random", "random", "extremes"}).Draw(t, "shape")
+		seen := map[int]bool{}
+		var idx []int
+		for len(idx) < th+extra {
+			var i int
+			switch shape {
+			case "high-block":
+				i = n - 1 - len(idx)
+			case "extremes":
+				if len(idx)%2 == 0 {
+					i = n - 1 - len(idx)/2
+				} else {
+					i = len(idx) / 2
+				}
+			default:
+				i = uniformInt(t, 0, n-1, "idx")
+			}
+			if i < 0 || seen[i] {
+				if shape != "random" {
+					break
+				}
+				continue
+			}
+			seen[i] = true
+			idx = append(idx, i)
+		}
+		if len(idx) < th {
+			ev.Case(false, "sparse: index space too small", "share-sparse-skipped")
+			return
+		}
+		order := rapid.Permutation(idx).Draw(t, "order")
+		var pl []*share.PriShare
+		var ql []*share.PubShare
+		for _, i := range order {
+			pl = append(pl, pri.Eval(uint32(i)))
+			ql = append(ql, pub.Eval(uint32(i)))
+		}
+		ctx := fmt.Sprintf("sparse group=%s n=%d t=%d shape=%s indices=%v", gi.Name, n, th, shape, order)
+		key := func(w string) string { return fmt.Sprintf("C07/%s/%s", gi.Name, w) }
+		for k, s := range pl {
+			if want := polyEvalBig(coeffs, int64(order[k]+1), q); scalarToBig(s.V).Cmp(want) != 0 {
+				violationOrKnown(t, ev, key("eval"), "Eval(%d) = %x, model %x\n%s", order[k], scalarToBig(s.V), want, ctx)
+			}
+			if !pub.Check(s) {
+				violationOrKnown(t, ev, key("check"), "Check rejects the honest share %d\n%s", order[k], ctx)
+			}
+		}
+		if rs, err := share.RecoverSecret(g, pl, uint32(th), uint32(n)); err != nil || scalarToBig(rs).Cmp(coeffs[0]) != 0 {
+			violationOrKnown(t, ev, key("RecoverSecret"), "RecoverSecret = %v err=%v, want %x\n%s", rs, err, coeffs[0], ctx)
+		}
+		if rc, err := share.RecoverCommit(g, ql, uint32(th), uint32(n)); err != nil || !rc.Equal(pub.Commit()) {
+			violationOrKnown(t, ev, key("RecoverCommit"), "RecoverCommit err=%v or value differs from secret*base\n%s", err, ctx)
+		}
+		if rp, err := share.RecoverPriPoly(g, pl, uint32(th), uint32(n)); err != nil {
+			violationOrKnown(t, ev, key("RecoverPriPoly"), "RecoverPriPoly err=%v\n%s", err, ctx)
+		} else {
+			got := rp.Coefficients()
+			for i := 0; i < max(len(got), th); i++ {
+				gv, wv := big0, big0
+				if i < len(got) {
+					gv = scalarToBig(got[i])
+				}
+				if i < th {
+					wv = coeffs[i]
+				}
+				if gv.Cmp(wv) != 0 {
+					violationOrKnown(t, ev, key("RecoverPriPoly"), "coefficient %d = %x, want %x\n%s", i, gv, wv, ctx)
+					break
+				}
+			}
+		}
+		if rpp, err := share.RecoverPubPoly(g, ql, uint32(th), uint32(n)); err != nil || !rpp.Commit().Equal(pub.Commit()) {
+			violationOrKnown(t, ev, key("RecoverPubPoly"), "RecoverPubPoly err=%v or constant term differs\n%s", err, ctx)
+		}
+		ev.Case(true, ctx, "share-sparse:"+shape, fmt.Sprintf("share-sparse-n:%d", n))
+	})
+}
